@@ -130,7 +130,7 @@ _H_VERDICT = {
     "c02_verdict_infeasible": dict(nofloat=True, timeout=600, unit=_VERDICT_UNIT, inst="f64 all bit patterns", bounds="as c01_verdict_solved",
         oracle="PrimalInfeasible <=> !solved & ktratio>1000/tol_ktratio & b'z<-tol_abs & res_primal_inf<-tol_rel*b'z; dual analogue, primal first"),
     "c04_verdict_limits": dict(nofloat=True, timeout=900, unit=_VERDICT_UNIT, inst="f64 all bit patterns", bounds="as c01_verdict_solved",
-        oracle="InsufficientProgress <=> documented stall/divergence test; else MaxIterations <=> max_iter==iterations; else MaxTime <=> solve_time>time_limit; else Unsolved"),
+        oracle="InsufficientProgress => not converged, residuals worse, stall or ktratio<1; stall => InsufficientProgress; else MaxIterations <=> max_iter==iterations; else MaxTime <=> solve_time>time_limit; else Unsolved (the factor 100 of the divergence test is outside: f64 multiplier equivalence)"),
     "c03_almost": dict(nofloat=True, timeout=900, unit="DefaultInfo::post_process -> check_convergence_almost", inst="f64 all bit patterns",
         bounds="all 11 prior statuses, all fields and reduced tolerances",
         oracle="status rewritten only from {NumericalError,InsufficientProgress,MaxIterations,MaxTime}, only to Almost*, only if the reduced test holds"),
@@ -230,12 +230,13 @@ def _mk(mod, items):
 
 PROPS["C17"] = {
     "feature": "c17",
-    "bounds_note": "union-find: 8 elements / 7 unions (smallest size with a depth-3 tree) and 5/6; Kruskal: 4 cliques, 4-5 weighted edges, symbolic pattern and weights; connect_graph: all 8 lower patterns n=3",
+    "bounds_note": "union-find: one query / one union from an arbitrary valid state on 8 elements (inductive; 8 = smallest size with a depth-3 tree) plus 5 elements / 4 unions from the initial state; Kruskal: 4 cliques, 4-5 weighted edges, symbolic pattern and weights; connect_graph: all 8 lower patterns n=3",
     "outside": "pothen_sun supernodes, post_order, find_separators, all three merge strategies, reorder_snode_consecutively, running-intersection / coverage of the clique tree: all IndexSet/HashMap based, which Kani cannot execute (hashbrown insertion does not terminate symbolically) - NOT decided here",
     "assumptions": [],
     "harnesses": _mk("c17", [
-        ("c17_dsu_n8_u7", dict(unit="DisjointSetUnion::{new,union,in_same_set,root}", inst="usize", bounds="8 elements, any 7 unions, any query", oracle="in_same_set(x,y) <=> x,y connected by the unions (reference component labels); root returns a fixed point", timeout=1800, mem_gb=20)),
-        ("c17_dsu_n5_u6", dict(unit="same", inst="usize", bounds="5 elements, any 6 unions", oracle="same")),
+        ("c17_dsu_query_inductive_n8", dict(unit="DisjointSetUnion::{in_same_set,root} (path compression)", inst="usize", bounds="ONE query from an ARBITRARY valid state on 8 elements (rank-increasing forest with subtree size >= 2^rank: the union-by-rank invariant); 8 is the smallest size with a depth-3 tree", oracle="in_same_set(x,y) <=> same true root; compression keeps every root", timeout=1800, mem_gb=20)),
+        ("c17_dsu_union_inductive_n8", dict(unit="DisjointSetUnion::union", inst="usize", bounds="ONE union from an arbitrary valid state on 8 elements", oracle="merges exactly the two components; preserves the invariant (=> histories of any length, by induction)", timeout=2400, mem_gb=24)),
+        ("c17_dsu_n5_u4", dict(unit="DisjointSetUnion::{new,union,in_same_set,root}", inst="usize", bounds="5 elements, any 4 unions from the initial state, any query", oracle="in_same_set <=> connected by the unions made", timeout=1800, mem_gb=20)),
         ("c17_kruskal_n4_a", dict(unit="clique_graph::kruskal (findnz, sortperm_rev, permute, DisjointSetUnion)", inst="isize weights", bounds="4 cliques; edge sets {K4, 4-cycle, path}; symbolic weights 0..5", oracle="edges marked -1 form an acyclic spanning forest connecting exactly the graph's components; others untouched", timeout=1800, mem_gb=20)),
         ("c17_kruskal_n4_b", dict(tier="thorough", unit="same", inst="isize", bounds="4 cliques; edge sets {star, triangle+isolated, two disjoint edges, single edge}", oracle="same", timeout=3000, mem_gb=24)),
         ("c17_sparsity_mask", dict(unit="chordal_info::find_aggregate_sparsity_mask", inst="f64", bounds="A 4x2 nnz=3 symbolic, b in {-1,0,1}^4", oracle="row active <=> structural entry in A or nonzero b")),
@@ -244,17 +245,18 @@ PROPS["C17"] = {
 }
 PROPS["C18"] = {
     "feature": "c18",
-    "bounds_note": "index maps: all indices < 2^32; clique lists of length 3-4 with vertices < 8-12; H 3x3 with 4 entries",
+    "bounds_note": "index maps: all indices < 2^12 (2^24 thorough); clique lists of length 3-4 with vertices < 8-12; H 3x3 with 4 entries",
     "outside": "find_compact_A_b_and_cones, decomp_reverse_compact, psd_complete (HashMap / LAPACK); end-to-end equivalence of decomposed and original solves - NOT decided here",
     "assumptions": ["CBMC's IEEE-754 sqrt model (isqrt goes through f64::sqrt)"],
     "harnesses": _mk("c18", [
-        ("c18_tri_index_roundtrip", dict(nofloat=True, unit="scalarmath::upper_triangular_index_to_coord / coord_to_upper_triangular_index / isqrt", inst="usize", bounds="all idx < 2^32", oracle="mutually inverse; row<=col; idx = c(c+1)/2 + r", timeout=1800)),
-        ("c18_tri_numbers", dict(unit="scalarmath::triangular_number / triangular_index", inst="usize", bounds="k < 2^31", oracle="k(k+1)/2 and T(k+1)-1")),
+        ("c18_tri_index_roundtrip_12bit", dict(nofloat=True, unit="scalarmath::upper_triangular_index_to_coord / coord_to_upper_triangular_index / isqrt", inst="usize", bounds="all idx < 2^12", oracle="mutually inverse; row<=col; idx = c(c+1)/2 + r", timeout=1500)),
+        ("c18_tri_index_roundtrip_24bit", dict(nofloat=True, tier="thorough", unit="same", inst="usize", bounds="all idx < 2^24", oracle="same", timeout=3600, mem_gb=20)),
+        ("c18_tri_numbers", dict(unit="scalarmath::triangular_number / triangular_index", inst="usize", bounds="k < 2^12", oracle="k(k+1)/2 and T(k+1)-1", timeout=1200)),
         ("c18_subblock_map", dict(unit="augment_standard::add_subblock_map", inst="usize", bounds="clique of 3 vertices < 8, row_start < 100", oracle="appends start + svec(v_i,v_j) for i<=j in packed order")),
         ("c18_parent_block_indices", dict(unit="augment_compact::parent_block_indices", inst="usize", bounds="parent clique of 4 vertices < 10", oracle="svec index of (position of i, position of j)")),
         ("c18_rows_subset", dict(unit="augment_compact::get_rows_subset", inst="usize", bounds="4 sorted rows < 12, any range in 0..12", oracle="range of positions whose row lies in the range; None only if empty")),
         ("c18_alternating_and_extra_columns", dict(nofloat=True, unit="augment_compact::alternating_sequence / extra_columns", inst="f64/usize", bounds="length 8, n_start <= 8", oracle="+1 ... then (+1,-1) pairs; pairs share consecutive new column numbers")),
-        ("c18_overlaps_in_rows", dict(unit="reverse_standard::number_of_overlaps_in_rows (row_sums, position_all)", inst="f64", bounds="H 3x3 0/1 with 4 entries, symbolic pattern", oracle="rows with >1 entries, in order, with their counts")),
+        ("c18_overlaps_in_rows", dict(unit="reverse_standard::number_of_overlaps_in_rows (row_sums, position_all)", inst="f64", bounds="four enumerated 3x3 0/1 patterns", oracle="rows with >1 entries, in order, with their counts")),
     ]),
 }
 
